@@ -198,6 +198,11 @@ impl<'de, 'a> de::Deserializer<'de> for &'a mut Deserializer<'de> {
         match self.input {
             Value::Null => visitor.visit_seq(ListAccess::empty()),
             Value::Vector(elements) => visitor.visit_seq(VecAccess::new(elements)),
+            // A tuple visitor stops after its last element, so it would never
+            // see an improper tail beyond that point.
+            Value::Cons(_) if !self.input.is_list() => {
+                Err(invalid_value(self.input, "proper list"))
+            }
             Value::Cons(cell) => visitor.visit_seq(ListAccess::new(cell)),
             _ => Err(invalid_value(self.input, "list")),
         }
